@@ -655,7 +655,10 @@ func (g *HistGen) genUpdate() {
 
 func (g *HistGen) genDelete() {
 	t := g.pickTable()
-	op := &Op{Op: "delete", Table: HexS(t.Name), KeyItem: g.genKey(t), RetOld: g.r.Chance(50)}
+	op := &Op{Op: "delete", Table: HexS(t.Name), KeyItem: g.knownKey(t), RetOld: g.r.Chance(50)}
+	if !op.RetOld && g.r.Chance(30) {
+		op.RetOther = pick(g.r, []string{"NONE", "UPDATED_OLD", "ALL_NEW", "UPDATED_NEW"})
+	}
 	if g.r.Chance(g.p.BadPct / 2) {
 		op.KeyItem = g.badKey(t)
 	}
@@ -674,7 +677,21 @@ func (g *HistGen) genGet() {
 
 // variant of a registered native expression: same text, extra white space, or an anagram
 func (g *HistGen) variant(e string) string {
-	switch g.r.Intn(9) {
+	switch g.r.Intn(10) {
+	case 9: // a blank inside a word or between ':' and its name: another text, and no sentence
+		b := []byte(e)
+		var cand []int
+		for i := 1; i < len(b); i++ {
+			w := func(c byte) bool { return c == '_' || c == ':' || c == '#' || (c >= 'a' && c <= 'z') || (c >= 'A' && c <= 'Z') || (c >= '0' && c <= '9') }
+			if w(b[i-1]) && w(b[i]) {
+				cand = append(cand, i)
+			}
+		}
+		if len(cand) > 0 {
+			i := pick(g.r, cand)
+			return string(b[:i]) + " " + string(b[i:])
+		}
+		return e
 	case 7: // exactly one space in front: the same expression
 		return " " + e
 	case 8: // exactly one space (or one tab, one newline) behind: the same expression
@@ -873,6 +890,9 @@ func (g *HistGen) searchOpX(kind string, forceScan bool) *Op {
 			ctx.Values[":bad-value"] = S("1")
 		}
 	}
+	if g.r.Chance(8) {
+		op.EmptyStart = true
+	}
 	if g.r.Chance(g.p.BadPct/3) && !g.native && g.dropPlaceholder(ctx) {
 		op.KeyTree, op.FilterTree = nil, nil
 	}
@@ -1046,6 +1066,13 @@ func (g *HistGen) genBatchWrite() {
 		}
 		op.WReqs = append(op.WReqs, tr)
 	}
+	if shapeOnly && g.r.Chance(30) {
+		// the batch rules hold whatever state the database is in: the malformed batch is sent while a failure is emulated
+		g.ops = append(g.ops, &Op{Op: "setFailure", F: "internal_server"})
+		g.ops = append(g.ops, op)
+		g.ops = append(g.ops, &Op{Op: "setFailure", F: "none"})
+		return
+	}
 	g.ops = append(g.ops, op)
 }
 
@@ -1157,6 +1184,8 @@ func (g *HistGen) genMgmt() {
 				g.ops = append(g.ops, &Op{Op: "updateTable", Table: HexS(t.Name), Changes: []IndexChange{{Create: &IndexDef{Name: HexS(ix.Name), Key: *keyDefOf(ix.Hash, ix.Range), TP: true}}}})
 				t.GSI = append(t.GSI, ix)
 				g.ops = append(g.ops, &Op{Op: "query", Table: HexS(t.Name), Index: HexS(ix.Name), Scan: true, Forward: true})
+				// page by page through the new index: the key a page ends on is a start key the library accepts
+				g.ops = append(g.ops, &Op{Op: "pages", Table: HexS(t.Name), Index: HexS(ix.Name), Scan: true, Forward: true, Limit: 1, MaxPages: 40})
 				g.ops = append(g.ops, &Op{Op: "describeTable", Table: HexS(t.Name)})
 			}
 		} else if len(live) > 0 {
@@ -1245,7 +1274,41 @@ func (g *HistGen) genNative() {
 	}
 	t := pick(g.r, live)
 	texts := nativeTexts
-	switch g.r.Intn(9) {
+	switch g.r.Intn(10) {
+	case 9:
+		// a fresh registry installed with SetInterpreter reaches the tables that exist already, whether the native
+		// interpreter is active at that moment or only afterwards
+		g.ops = append(g.ops, &Op{Op: "setInterpreter"})
+		g.regs = nil
+		e := "v = :x"
+		g.ops = append(g.ops, &Op{Op: "registerMatcher", Table: HexS(t.Name), Kind: "filter", Expr: HexS(e), ID: 2 + g.r.Intn(4)})
+		g.ops = append(g.ops, &Op{Op: "registerUpdater", Table: HexS(t.Name), Expr: HexS("SET w = :x"), ID: g.r.Intn(6)})
+		g.regs = append(g.regs, e, "SET w = :x")
+		if !g.native {
+			g.ops = append(g.ops, &Op{Op: "activateNative"})
+			g.native = true
+		}
+		it := Item{}
+		for _, kv := range g.genItemFor(t) {
+			if string(kv.K) != "v" {
+				it = append(it, kv)
+			}
+		}
+		it = append(it, KV{[]byte("v"), S("1")})
+		g.ops = append(g.ops, &Op{Op: "put", Table: HexS(t.Name), Item: it})
+		g.notePut(t, it)
+		op := &Op{Op: "query", Table: HexS(t.Name), Scan: true, Forward: true, Filter: HexS(e)}
+		op.setExprs(map[string]string{}, map[string]AV{":x": S("1")})
+		g.ops = append(g.ops, op)
+		key := Item{}
+		for _, kv := range it {
+			if string(kv.K) == t.Hash[0] || (t.Range != nil && string(kv.K) == t.Range[0]) {
+				key = append(key, kv)
+			}
+		}
+		up := &Op{Op: "update", Table: HexS(t.Name), KeyItem: key, Expr: HexS("SET w = :x")}
+		up.setExprs(map[string]string{}, map[string]AV{":x": S("2")})
+		g.ops = append(g.ops, up)
 	case 8:
 		// a table created while the native interpreter is active is under it like the others: its registrations fire,
 		// an update without a registered updater is refused
